@@ -270,9 +270,17 @@ pub fn alpha(fields: &[&str]) -> String
 			Ok(()) => s.push_str(" verify=ok"),
 			Err(e) => s.push_str(&format!(" verify=FAIL[{}]", e.replace(' ', "_"))),
 		}
+		// symbols defined by each module's own IR (the linker may drop unreferenced private functions)
+		let mut defs: Vec<String> = Vec::new();
+		for ir in &o.module_irs
+		{
+			defs.extend(defined_symbols(ir));
+		}
+		defs.sort();
+		s.push_str(&format!(" defs={}", defs.join(",")));
 		if let Some(ir) = &o.linked_ir
 		{
-			s.push_str(&format!(" defs={}", defined_symbols(ir).join(",")));
+			s.push_str(&format!(" linkeddefs={}", defined_symbols(ir).join(",")));
 		}
 	}
 	if mode == "run"
